@@ -10,7 +10,7 @@ One obligation per source file; a hit is reported with its line.  `extern crate 
 import os
 import re
 
-DENY = re.compile(r'\b(alloc::|extern\s+crate\s+alloc|std::vec|std::string|std::boxed|std::collections|std::rc|std::sync::Arc|Vec\s*<|Vec::|String::|Box::|Box\s*<|Rc::|Arc::|\.to_vec\(|\.to_owned\(|\.to_string\(|\.into_boxed|format!|vec!|\.collect::<\s*(Vec|String)|HashMap|BTreeMap|VecDeque|Cow::Owned)')
+DENY = re.compile(r'\b(env::var|env::args|String\b|OsString|PathBuf|alloc::|extern\s+crate\s+alloc|std::vec|std::string|std::boxed|std::collections|std::rc|std::sync::Arc|Vec\s*<|Vec::|String::|Box::|Box\s*<|Rc::|Arc::|\.to_vec\(|\.to_owned\(|\.to_string\(|\.into_boxed|format!|vec!|\.collect::<\s*(Vec|String)|HashMap|BTreeMap|VecDeque|Cow::Owned)')
 
 
 def strip_tests(src):
@@ -63,7 +63,27 @@ def scan(repo):
                 hits.append('%s:%d: %s' % (rel, n, line.strip()[:160]))
         checks.append(dict(obligation='no-allocating-callee:' + rel, where='src/' + rel, status='fail' if hits else 'pass',
                            detail='\n'.join(hits[:10]), text='no path into the allocator in any non-test item of src/%s (deny list: alloc::, Vec, String, Box, Rc/Arc, to_vec/to_owned/to_string, format!, vec!, collect::<Vec|String>, maps)' % rel))
+    checks.append(nostd_build(repo))
     return dict(checks=checks)
+
+
+def nostd_build(repo):
+    """auxiliary (a build, not a contract): the crate compiles with the std feature off"""
+    import shutil, subprocess, tempfile
+    d = tempfile.mkdtemp(prefix='httparse-nostd-')
+    try:
+        subprocess.check_call(['rsync', '-a', '--exclude', 'target', '--exclude', '.git', '--exclude', 'fuzz', repo + '/', d + '/'])
+        env = dict(os.environ, CARGO_NET_OFFLINE='true')
+        env.pop('RUSTUP_TOOLCHAIN', None)
+        p = subprocess.run(['cargo', 'check', '--lib', '--no-default-features', '--offline', '-q'], cwd=d, env=env, capture_output=True, text=True, timeout=600)
+        ok = p.returncode == 0
+        return dict(obligation='build:no-default-features', where='Cargo features', status='pass' if ok else 'fail',
+                    detail='' if ok else (p.stdout + p.stderr)[-1500:],
+                    text='`cargo check --lib --no-default-features` on a copy of the working tree (with std off the crate is #![no_std]: any use of std or alloc fails to resolve)')
+    except Exception as e:   # noqa
+        return dict(obligation='build:no-default-features', where='Cargo features', status='undecided', detail='build check could not run: %s' % e, text='')
+    finally:
+        shutil.rmtree(d, ignore_errors=True)
 
 
 if __name__ == '__main__':
